@@ -1,4 +1,15 @@
 import Driver.Proto
+import NutsModel.Facts.C15
+open Lean Nuts.Drv
+
+/-- C15 adds the op that depends on C15's regenerated facts (the TLS server's ClientAuth mode) -/
+def step15 (d : Nuts.Drv.Proto.DSt) (j : Json) : Nuts.Drv.Proto.DSt × List String :=
+  match jStr j "op" with
+  | "tlsclient" =>
+    let src := ((Nuts.Facts.C15.serverTLSConfig.find? (fun x => x.startsWith "ClientAuth=")).getD "ClientAuth=?").drop 11
+    let mode := Nuts.C15.ClientAuthMode.ofSource src.toString
+    (d, [s!"tlsclient accepted={Nuts.C15.serverAcceptsClient mode (jBool j "presented") (jBool j "chains")}"])
+  | _ => Nuts.Drv.Proto.step d j
 
 def main : IO Unit := do
-  Nuts.Drv.loop (← IO.getStdin) (← IO.getStdout) Nuts.Drv.Proto.step ({} : Nuts.Drv.Proto.DSt)
+  Nuts.Drv.loop (← IO.getStdin) (← IO.getStdout) step15 ({} : Nuts.Drv.Proto.DSt)
